@@ -51,7 +51,7 @@ REQUIRED_THEOREMS = [
     "collection_run_per_field", "collSys_hyps", "run_explicit_documented", "run_explicit_sum", "docIncr_sum",
     "runGen_eq_run", "runGen_one_call_per_step", "runGen_explicit_total", "runGen_explicit_sum", "draws_spec",
     "quad_variance_hyps", "quadVarDiff_is_derivative", "quad_runGen_sum", "quadSys_runGen_sum",
-    "collection_run_implicit_per_field",
+    "collection_run_implicit_per_field", "field_run_per_component", "fieldSys_hyps",
 ]
 RULE = ("seed-derived (grid of any class incl. polar/spherical/cylindrical with non-uniform cell volumes, field type "
         "scalar/vector/tensor/collection, rate, variance kind scalar/per-component/per-field/field-dependent, "
